@@ -60,6 +60,8 @@ type c06Op struct {
 	Kind  string    `json:"kind"`
 	Hdr   string    `json:"hdr,omitempty"` // to | cc | bcc | from | env | replyto
 	Addrs []c06Addr `json:"addrs,omitempty"`
+	// Again (ignoreinvalid / setaddrheaderignoreinvalid): the call is made twice with the caller's same slice.
+	Again bool `json:"again,omitempty"`
 }
 
 type c06Case struct {
@@ -235,13 +237,21 @@ func c06Run(c c06Case) []*core.Violation {
 				vs = append(vs, core.V("setter-verdict", "%sFormat(%q, %q) rejected a valid address: %v", op.Hdr, a.Name, spec, err))
 			}
 		case "ignoreinvalid":
-			switch op.Hdr {
-			case "to":
-				m.ToIgnoreInvalid(texts(op.Addrs)...)
-			case "cc":
-				m.CcIgnoreInvalid(texts(op.Addrs)...)
-			case "bcc":
-				m.BccIgnoreInvalid(texts(op.Addrs)...)
+			// the caller's own slice, spread as list... - and, with Again, used a second time for the same
+			// call (as in a loop over several messages): it still holds what the caller put there
+			list := texts(op.Addrs)
+			for pass := 0; pass < 2; pass++ {
+				switch op.Hdr {
+				case "to":
+					m.ToIgnoreInvalid(list...)
+				case "cc":
+					m.CcIgnoreInvalid(list...)
+				case "bcc":
+					m.BccIgnoreInvalid(list...)
+				}
+				if !op.Again {
+					break
+				}
 			}
 			ignoreInvalid(op.Hdr, op.Addrs, false)
 		case "fromstring":
@@ -278,7 +288,11 @@ func c06Run(c c06Case) []*core.Violation {
 				}
 			}
 		case "setaddrheaderignoreinvalid":
-			m.SetAddrHeaderIgnoreInvalid(hdrConst(op.Hdr), texts(op.Addrs)...)
+			list := texts(op.Addrs)
+			m.SetAddrHeaderIgnoreInvalid(hdrConst(op.Hdr), list...)
+			if op.Again && op.Hdr != "from" {
+				m.SetAddrHeaderIgnoreInvalid(hdrConst(op.Hdr), list...)
+			}
 			ignoreInvalid(op.Hdr, op.Addrs, op.Hdr == "from")
 		case "reset":
 			m.Reset()
@@ -562,8 +576,10 @@ func c06Gen(t *rapid.T) c06Case {
 		case "reset", "render", "sendmailfail":
 		case "add", "ignoreinvalid", "fromstring":
 			op.Hdr = rapid.SampledFrom([]string{"to", "cc", "bcc", "bcc"}).Draw(t, "hdr")
+			op.Again = kind == "ignoreinvalid" && rapid.Bool().Draw(t, "again")
 		case "setaddrheaderignoreinvalid":
 			op.Hdr = rapid.SampledFrom([]string{"to", "cc", "bcc", "from"}).Draw(t, "hdr")
+			op.Again = rapid.Bool().Draw(t, "again")
 		default:
 			op.Hdr = rapid.SampledFrom([]string{"to", "cc", "bcc", "bcc", "from", "from", "env", "replyto"}).Draw(t, "hdr")
 		}
